@@ -41,14 +41,17 @@ def main():
                 rc = subprocess.run([os.path.join(HERE, 'check'), p, '--tier', 'quick'], capture_output=True, text=True,
                                     env=dict(os.environ, FXP_REPO=tmp, VERIF_NO_EVIDENCE='1', VERIF_NO_SHRINK='1'))
                 vio = sum(1 for l in rc.stdout.splitlines() if l.startswith('VIOLATION'))
-                res[p] = {'exit': rc.returncode, 'violations': vio, 'wall_s': round(time.time() - t0, 1)}
+                import re
+                hits = sum(int(m) for m in re.findall(r'signature: .*\(x(\d+)\)', rc.stdout))
+                res[p] = {'exit': rc.returncode, 'violations': vio, 'failing_cases': hits, 'wall_s': round(time.time() - t0, 1)}
             out[name] = res
             det = [p for p in props if res[p]['exit'] == 1 and res[p]['violations'] > 0]
-            print('%-44s demo_exit=%d breaks=%s detected_by=%s' % (name, rd.returncode, meta['breaks_property'], det))
+            print('%-44s demo_exit=%d breaks=%s detected_by=%s' % (name, rd.returncode, meta['breaks_property'],
+                                                                    ['%s(x%d)' % (p, res[p]['failing_cases']) for p in det]))
             sys.stdout.flush()
         finally:
             shutil.rmtree(tmp, ignore_errors=True)
-    json.dump(out, open(os.path.join(HERE, 'seeded', 'RESULTS.json'), 'w'), indent=1)
+    json.dump({'seed': os.environ.get('VERIF_SEED', '1'), 'results': out}, open(os.path.join(HERE, 'seeded', os.environ.get('SEEDED_OUT', 'RESULTS.json')), 'w'), indent=1)
     return 0
 
 
